@@ -12,6 +12,15 @@ Open Scope string_scope. Open Scope list_scope.
     delimiter tokens and not the keyword [pub] (a keyword is never a path segment or a name) *)
 Definition ident_tok (x : string) : bool := negb (is_punct x) && negb (teq x "pub").
 
+(** the first token is the literal [lit] *)
+Definition hd_is (lit : string) (l : tokens) : bool :=
+  match l with t :: _ => teq t lit | [] => false end.
+
+(** what may follow a printed type expression for the reader to stop there: the end of the
+    stream or any token but [<] and [:] (so in particular [,] [>] [)] [\]] [;] [}] [=]) *)
+Definition ty_stop (rest : tokens) : bool :=
+  match rest with [] => true | t :: _ => negb (teq t "<") && negb (teq t ":") end.
+
 (** ** plain paths: [::a::b] / [a::b] with identifier segments, no generic arguments *)
 Fixpoint abs_segs (t : tokens) : option (list string) :=
   match t with
